@@ -29,8 +29,8 @@ JEcTrace(e) ==
 (* dfa_to_gnfa + gnfa_minimize: the labels after dfa_to_gnfa, the ripped states in order, the final label *)
 JRipTrace(e) ==
   LET D == FaOf(e.fa)
-      qs == "start"
-      qa == "accept"
+      qs == IF "qs" \in DOMAIN e THEN e.qs ELSE "start"       \* the names the two added states got
+      qa == IF "qa" \in DOMAIN e THEN e.qa ELSE "accept"
       Qg0 == D.Q \cup {qs, qa}
       Given(p, q) == {i \in DOMAIN e.gnfa : e.gnfa[i][1] = p /\ e.gnfa[i][2] = q}
       lab0 == [pq \in Qg0 \X Qg0 |-> IF Given(pq[1], pq[2]) = {} THEN Zero
@@ -48,7 +48,8 @@ JRipTrace(e) ==
       St(k) == IF k = 0 THEN <<Qg0, lab0>>
                ELSE LET s == St(k - 1) IN <<s[1] \ {e.rips[k]}, RipLabels(s[1], s[2], e.rips[k], qs, qa)>>
       fin == St(n)
-  IN BadB("binding_rip_initial_labels", \E p, q \in Qg0 : ~InitialOk(p, q))
+  IN BadB("binding_rip_added_states_are_new", qs \in D.Q \/ qa \in D.Q \/ qs = qa)
+     \cup BadB("binding_rip_initial_labels", \E p, q \in Qg0 : ~InitialOk(p, q))
      \cup BadB("binding_rip_choice_enabled",
                \/ ToSet(e.rips) # D.Q \/ n # Cardinality(D.Q))
      \cup (IF ToSet(e.rips) = D.Q /\ n = Cardinality(D.Q)
